@@ -169,7 +169,7 @@ func runSplit(r *Rng, n int, out *Output) {
 		}
 		obs := map[string]any{"signal": []string{"traces", "logs", "metrics"}[sig], "size": size, "total": total,
 			"src": ForestString(src), "dst": ForestString(dst), "rest": ForestString(rest)}
-		kind := fmt.Sprintf("%s total=%d", obs["signal"], bucket(total))
+		kind := fmt.Sprintf("%s total=%s", obs["signal"], bucket(total))
 		if size >= total {
 			// the source itself is returned: compare on the Go side only
 			if ForestString(dst) != ForestString(src) {
